@@ -3,21 +3,21 @@ CHECK_DEADLOCK FALSE
 CONSTANTS
   Kind = "tcp"
   KeepAlive = TRUE
-  Retries = 0
+  Retries = 1
   T = 4
   CT = 20
   NCallers = 1
   NReq = 2
-  Faults <- FaultsFull
-  ConnOuts = {"ok", "refused", "hang"}
+  Faults <- FaultsCancel
+  ConnOuts = {"ok", "refused"}
   MaxConnFail = 1
   Offsets = {0}
-  Gaps = {0, 2}
+  Gaps = {0}
   Strict = TRUE
   Horizon = 400
   Fx <- FxAll
   Assume = FALSE
-  CancelAts = {}
+  CancelAts = {2, 5, 6}
 INVARIANT NoViolation
 INVARIANT NoHang
 INVARIANT TimeBounded
